@@ -30,6 +30,9 @@ def gen_scenario(rng, n_gc=None, n_veh=None, features=None, steps=None, interval
     feats = features if features is not None else {
         k for k in ("fixed", "generation", "battery", "v2g", "price", "limit", "unaligned", "minpower", "number_cs")
         if rng.random() < 0.45}
+    if features is None and rng.random() < 0.2:
+        feats |= set(rng.choice([("battery", "price", "limit"), ("generation", "v2g", "limit"), ("battery", "generation", "fixed"),
+                                 ("price", "limit", "fixed"), ("battery", "v2g", "price"), ("generation", "price"), ("generation", "v2g", "price")]))
     interval = interval or rng.choice([15, 15, 30, 60, 10])
     steps = steps or rng.choice([4, 8, 12, 24, 48])
     start = datetime.datetime.fromisoformat("2023-01-0%dT%02d:00:00%s" % (rng.randint(2, 8), rng.choice([0, 6, 12, 22]), TZ))
@@ -73,6 +76,15 @@ def gen_scenario(rng, n_gc=None, n_veh=None, features=None, steps=None, interval
             if rng.random() < 0.3:
                 b["loss_rate"] = {rng.choice(["relative", "fixed_relative", "fixed_absolute"]): rng.choice([0.1, 1, 0.01])}
             comp["batteries"]["BAT%d" % (g + 1)] = b
+        if "price" in feats and rng.random() < 0.5:
+            # a cheap period early in the run (at or below the default PRICE_THRESHOLD 0)
+            t = start + dt * rng.randint(0, 1)
+            ev["grid_operator_signals"].append({"signal_time": iso(start), "start_time": iso(t), "grid_connector_id": gid,
+                                                "cost": {"type": "fixed", "value": rng.choice([-0.1, 0])}})
+        if "limit" in feats and rng.random() < 0.5:
+            t = start + dt * rng.randint(0, 2)
+            ev["grid_operator_signals"].append({"signal_time": iso(start), "start_time": iso(t), "grid_connector_id": gid,
+                                                "max_power": gc["max_power"] * rng.choice([0.5, 0.25])})
         if "price" in feats:
             for _ in range(rng.randint(1, 3)):
                 t = start + dt * rng.randint(0, steps) + (datetime.timedelta(minutes=rng.choice([0, 3])) if "unaligned" in feats else datetime.timedelta(0))
